@@ -182,9 +182,46 @@ def oracleC05Window (bursts : List SBurst) (outs : List Out) : Option String :=
     else none
   | [] => none
 
+/-- C05, suppression window, on ANY history: "an identical message heard again within the window of the previous
+    report is suppressed".  For two CONSECUTIVE message reports (decode errors do not count and must not reset
+    anything) of the same header text at `t1 < t2`: the last burst carrying that text at or before `t2` must have
+    ended at or after `t1 + HIST` — otherwise everything that was heard of the repeat lay inside the window.
+    The one known way around it (F5, second form): a burst of something ELSE arriving after the suppression entry
+    has expired re-votes the remembered repeat; diagnosed. -/
+def oracleC05Gap (bursts : List SBurst) (outs : List Out) : Option String :=
+  let reported := outs.filterMap (fun o => match o.msg with
+    | .som t _ _ => some (o.t, some t) | .eom => some (o.t, none) | .err => none)
+  let rec go : List (Nat × Option (List Byte)) → Option String
+    | (t1, some a) :: (t2, some b) :: rest =>
+      let carriers := bursts.filter (fun x => x.t ≤ t2 ∧ x.t > t1 ∧ (x.bytes.map msk).take a.length == a)
+      match carriers.getLast? with
+      | some lastC =>
+        if a == b ∧ lastC.t < t1 + HIST then
+          let revived := bursts.any (fun x => x.t ≥ t1 + HIST ∧ x.t ≤ t2 ∧ (x.bytes.map msk).take a.length != a)
+          some s!"the header reported at tick {t1} was reported again at tick {t2} although the last burst carrying it ended at tick {lastC.t}, inside the suppression window (until {t1 + HIST}), with no other message in between{if revived then " [cause: revived by a later burst of another text after the suppression entry had expired]" else ""}"
+        else go ((t2, some b) :: rest)
+      | none => go ((t2, some b) :: rest)
+    | _ :: rest => go rest
+    | [] => none
+  go reported
+
 -- ---------------------------------------------------------------- C08: delay bounds
 
+/-- "An end-of-message is reported as soon as the burst that establishes it has ended": a burst beginning `NN`
+    that arrives when every earlier burst ended more than the history time before it (so it stands alone: the
+    documented fast EOM) must be reported as EndOfMessage by that very call — unless an EndOfMessage was already
+    reported inside the suppression window before it. -/
+def loneTrailerRule (bursts : List SBurst) (outs : List Out) : Option String :=
+  bursts.findSome? (fun b =>
+    let isNN := (b.bytes.take 2).map msk == [78, 78]
+    let alone := bursts.all (fun x => x.t ≥ b.t ∨ x.t + HIST + 2 ≤ b.t)
+    let recentEom := outs.any (fun o => o.msg == .eom ∧ o.t < b.t ∧ b.t < o.t + HIST + 2)
+    if isNN ∧ alone ∧ !recentEom ∧ !(outs.any (fun o => o.msg == .eom ∧ o.t == b.t)) then
+      some s!"the trailer burst at tick {b.t} stands alone (every earlier burst ended more than {HIST} ticks before it) but no EndOfMessage was reported by the call that assembled it"
+    else none)
+
 def oracleC08 (bursts : List SBurst) (outs : List Out) : Option String :=
+  (loneTrailerRule bursts outs).orElse fun _ =>
   outs.findSome? (fun o =>
     match o.msg with
     | .eom =>
